@@ -3,7 +3,7 @@ From Coq Require Import ZifyBool ZifyN ZifyNat.
 From FF Require Import Lib.Word Gen.Consts_device_acpi_aml Gen.Consts_aml_tree Aml.Stream Aml.Lex Aml.LexProofs
   Aml.Tree Aml.Parser Aml.ParserProofs Aml.TreeSpec Aml.TreeProofs Aml.TreeProofsOps Aml.TreeProofsFind Aml.TreeProofsAnc
   Aml.ParserTotalTree Aml.ParserTotalTree2 Aml.ParserTotalLex Aml.ParserTotalTable Aml.ParserTotalBase Aml.ParserTotalLeaf
-  Aml.ParserTotalFrame Aml.ParserTotalLeaf2 Aml.ParserTotalFirst Aml.ParserTotalConn Aml.ParserTotalReloc Aml.ParserTotalDefer
+  Aml.ParserTotalFrame Aml.ParserTotalLeaf2 Aml.ParserTotalFirst Aml.ParserTotalConn Aml.ParserTotalReloc Aml.ParserTotalDefer Aml.ParserTotalFirst2
   Aml.ParserTotalDeferS.
 Import ListNotations.
 Local Open Scope N_scope.
@@ -24,12 +24,13 @@ Lemma TM_leaf (X P XX E : N -> Prop) s g s' g' :
   gwf g -> R (p_tree s) g -> TM X s g -> Fr P XX E s g s' g' ->
   (forall i o, P i -> tget (p_tree s) i = Some o -> ~ nodefer o) ->
   Eok E s g g' ->
+  (forall i, XX i -> nnp s i) -> (forall y, E y -> kids g y <> []) ->
   (forall i o, tget (p_tree s') i = Some o -> o_opcode o = aml_pOpMethod ->
      exists o0, tget (p_tree s) i = Some o0 /\ o_opcode o0 = aml_pOpMethod) ->
   TM X s' g'.
 Proof.
-  intros Hwf HR H F HP HE Hnm.
-  eapply (TM_frame2 X X P XX E s g s' g' Hwf HR H F HP HE); [auto|].
+  intros Hwf HR H F HP HE HXn HEk Hnm.
+  eapply (TM_frame2 X X P XX E s g s' g' Hwf HR H F HP HE HXn HEk); [auto|].
   intros m mo Hm Hop Hnl. exfalso. destruct (Hnm m mo Hm Hop) as (o0 & Ho0 & Hop0). apply Hnl.
   apply (R_live_glive _ _ HR). exists o0. split; [exact Ho0|rewrite Hop0; discriminate].
 Qed.
@@ -46,9 +47,11 @@ Definition ArgPost (curObj argTy : N) (s : pstate) (g : ghost) (ar : option N * 
                   TM (fun m => m = curObj /\ nolook argTy = true) s' g') /\
     (res = RShort -> argTy = aml_pArgTypeFieldList) /\
     (res = ROk -> argTy = aml_pArgTypeByteData ->
-       exists obj po v, a = Some obj /\ tget (p_tree s') obj = Some po /\ o_value po = Some (VNum v) /\ nodefer po) /\
+       exists obj po v, a = Some obj /\ tget (p_tree s') obj = Some po /\ o_value po = Some (VNum v) /\ nodefer po /\
+                        o_opcode po = aml_pOpBytePrefix /\ o_infoIndex po = bpIdx) /\
     (res = ROk -> argTy = aml_pArgTypeNameString ->
-       exists obj po, a = Some obj /\ tget (p_tree s') obj = Some po /\ nodefer po) /\
+       exists obj po, a = Some obj /\ tget (p_tree s') obj = Some po /\ nodefer po /\
+                      o_opcode po = aml_pOpIntNamePath /\ o_infoIndex po = npIdx /\ kids g' obj = []) /\
     (res = ROk -> argTy = aml_pArgTypePkgLen -> a = None) /\
     (res = ROk -> argTy <> aml_pArgTypeFieldList).
 
@@ -107,14 +110,23 @@ Proof.
   { intros Hr Eb. destruct a as [obj|]; [|destruct L4 as (F & _); rewrite Hr in F; discriminate].
     destruct L4 as (_ & _ & _ & D1 & _). destruct (D1 Eb) as (po & v & idx & Hpo & Hv & Hidx & Hii).
     exists obj, po, v. split; [reflexivity|]. split; [exact Hpo|]. split; [exact Hv|].
+    destruct (parseSimpleArg_obj argTy s obj res s' Erun) as (po' & Hpo' & _ & _ & K1 & _). assert (po' = po) by congruence. subst po'.
+    split; [|split; [apply (K1 Eb)|unfold bpIdx; rewrite Hidx; exact Hii]].
     destruct byteprefix_row as (i & fl & af & Ei & Er & Ef & En0). rewrite Ei in Hidx. injection Hidx as Hidx'.
     eapply (nodefer_idx po i); [congruence|exact Er|exact Ef|exact En0]. }
   split.
   { intros Hr En. destruct a as [obj|]; [|destruct L4 as (F & _); rewrite Hr in F; discriminate].
-    destruct L4 as (_ & _ & _ & _ & D2). destruct (D2 En) as (po & idx & Hpo & Hidx & Hii).
+    destruct L4 as (_ & Hlo & _ & _ & D2). destruct (D2 En) as (po & idx & Hpo & Hidx & Hii).
     exists obj, po. split; [reflexivity|]. split; [exact Hpo|].
-    destruct namepath_row as (i & fl & af & Ei & Er & Ef & En0). rewrite Ei in Hidx. injection Hidx as Hidx'.
-    eapply (nodefer_idx po i); [congruence|exact Er|exact Ef|exact En0]. }
+    destruct (parseSimpleArg_obj argTy s obj res s' Erun) as (po' & Hpo' & Hfirst & _ & _ & K2). assert (po' = po) by congruence. subst po'.
+    split; [|split; [apply (K2 En)|split; [unfold npIdx; rewrite Hidx; exact Hii|]]].
+    - destruct namepath_row as (i & fl & af & Ei & Er & Ef & En0). rewrite Ei in Hidx. injection Hidx as Hidx'.
+      eapply (nodefer_idx po i); [congruence|exact Er|exact Ef|exact En0].
+    - pose proof (fi_R _ _ H') as HR'. destruct (FI_live_get _ _ _ H' Hlo) as (o & Ho & Hlo'). assert (o = po) by congruence. subst o.
+      destruct (R_kids _ _ HR' _ _ Hpo Hlo') as (Hf1 & _). destruct (kids g' obj) as [|c l] eqn:Ek; [reflexivity|exfalso].
+      cbn [hd] in Hf1. assert (Hin : In c (kids g' obj)) by (rewrite Ek; left; reflexivity).
+      destruct ((R_gwf _ _ HR') _ _ Hin) as (_ & Hlc). destruct (FI_live_get _ _ _ H' Hlc) as (co & Hco & _).
+      apply (R_pos_not_Inv _ _ HR' _ _ Hco). congruence. }
   split; [intros _ ->; vm_compute in Hty; discriminate|intros _; exact Hnfl].
 Qed.
 
@@ -189,10 +201,10 @@ Proof. unfold m_bytelist. nmeth_tac; try apply parseByteList_nmeth. Qed.
 
 Lemma arg_bytelist curObj s g :
   FD s g -> IV s -> glive g curObj -> roomD 1 s ->
-  TM (fun m => m = curObj /\ nolook aml_pArgTypeByteList = true) s g ->
+  TM (fun m => m = curObj /\ nolook aml_pArgTypeByteList = true) s g -> nnp s curObj ->
   wp True m_bytelist s (ArgPost curObj aml_pArgTypeByteList s g).
 Proof.
-  intros H I0 Hl Hroom HTM. pose proof (fi_R _ _ H) as HR. pose proof (R_gwf _ _ HR) as Hwf.
+  intros H I0 Hl Hroom HTM Hnnp. pose proof (fi_R _ _ H) as HR. pose proof (R_gwf _ _ HR) as Hwf.
   pose proof (roomD_lp _ _ Hroom) as Hlp.
   apply wp_run. unfold m_bytelist.
   apply wp_bind. eapply new_step2; [exact H|apply (newokb_sound aml_pOpIntByteList eq_refl)|lia|].
@@ -218,8 +230,8 @@ Proof.
     split; [destruct Ha as [->| ->]; [cbn [fresh_root]; auto|exact I]|].
     split; [lia|]. split.
     { intros _. split; [change (ucost aml_pArgTypeByteList) with 1; lia|]. split; [exact C3|].
-      eapply (TM_leaf _ NoP (eq curObj) NoP s g s3 g2 Hwf HR HTM F3); try (intros; contradiction); try apply Eok_NoP.
-      exact (m_bytelist_nmeth s _ s3 Erun). }
+      eapply (TM_leaf _ NoP (eq curObj) NoP s g s3 g2 Hwf HR HTM F3); try (intros; contradiction); try apply Eok_NoP;
+        [intros i <-; exact Hnnp|exact (m_bytelist_nmeth s _ s3 Erun)]. }
     split; [intros E; destruct Hr as [->| ->]; discriminate|].
     split; [intros _ E; discriminate|]. split; [intros _ E; discriminate|]. split; [intros _ E; discriminate|intros _ E; discriminate]. }
   destruct (pres_eqb res ROk); apply wp_ret; intros Erun; apply Hfin; auto.
@@ -247,10 +259,10 @@ Qed.
 Lemma arg_fieldlist curObj s g :
   FD s g -> IV s -> glive g curObj -> roomD 0 s ->
   has_parent g curObj -> LastNum s curObj -> hasfl s curObj ->
-  TM (fun m => m = curObj /\ nolook aml_pArgTypeFieldList = true) s g ->
+  TM (fun m => m = curObj /\ nolook aml_pArgTypeFieldList = true) s g -> nnp s curObj ->
   wp True (mlet res <~ parseFieldElements curObj ;; ret (None, res)) s (ArgPost curObj aml_pArgTypeFieldList s g).
 Proof.
-  intros H I0 Hl Hroom (par & Hin) HLN Hfl HTM. pose proof (fi_R _ _ H) as HR. pose proof (R_gwf _ _ HR) as Hwf.
+  intros H I0 Hl Hroom (par & Hin) HLN Hfl HTM Hnnp. pose proof (fi_R _ _ H) as HR. pose proof (R_gwf _ _ HR) as Hwf.
   destruct (in_split _ _ Hin) as (l1 & tl & Ek).
   apply wp_run.
   apply wp_bind. eapply wp_weaken; [apply (parseFieldElements_spec2 curObj par l1 tl s g H Ek)| |].
@@ -282,14 +294,15 @@ Proof.
   split.
   { intros [Hr|Hr]; [contradiction|]. specialize (Q2 Hr). split; [change (ucost aml_pArgTypeFieldList) with 0; unfold Psi, Phi in *; lia|].
     split; [exact Q4|].
-    eapply (TM_leaf _ NoP (XC curObj) (EP par) s g s' g' Hwf HR HTM Fr'); [intros i o []| |exact Hnm].
+    eapply (TM_leaf _ NoP (XC curObj) (EP par) s g s' g' Hwf HR HTM Fr');
+      [intros i o []| |intros i Hi; unfold XC in Hi; subst i; exact Hnnp|intros y Hy F; unfold EP in Hy; subst y; rewrite F in Hin; contradiction|exact Hnm].
     split.
     - intros m. unfold EP. destruct (N.eq_dec m par); [left|right]; auto.
     - intros m mo Em Hm Hmop a0 a1 rest Hk. unfold EP in Em. subst m.
       (* the object with the field list is neither of the first two arguments of a Method *)
       assert (Hnx : ~ (par = curObj /\ nolook aml_pArgTypeFieldList = true)).
       { intros (E & _). subst par. eapply (R_child_neq_parent _ _ HR); [exact Hin|reflexivity]. }
-      destruct (HTM par mo Hm Hmop Hnx) as (b0 & b1 & rest0 & b0o & b1o & v & Hk0 & Hb0 & Hn0 & Hb1 & _ & Hn1).
+      destruct (HTM par mo Hm Hmop Hnx) as (b0 & b1 & rest0 & b0o & b1o & v & Hk0 & Hb0 & Hn0 & Hb1 & _ & Hn1 & _).
       rewrite Hk in Hk0. inversion Hk0; subst b0 b1 rest0.
       destruct Hfl as (co & op' & fl' & af' & Hco & Hinfo & (k & Hk8 & Hkf)).
       assert (Hc0 : curObj <> a0).
@@ -327,12 +340,12 @@ Lemma arg_strict fuel curObj argTy s g :
   D_strict tbls fuel ->
   argTy = aml_pArgTypeTermArg \/ argTy = aml_pArgTypeDataRefObj ->
   FD s g -> IV s -> glive g 0 -> glive g curObj -> roomD 0 s ->
-  TM (fun m => m = curObj /\ nolook argTy = true) s g ->
+  TM (fun m => m = curObj /\ nolook argTy = true) s g -> nnp s curObj ->
   wp True (parseStrictTermArg fuel curObj) s (ArgPost curObj argTy s g).
 Proof.
-  intros IH Hty H I0 H0 Hl Hroom HTM.
+  intros IH Hty H I0 H0 Hl Hroom HTM Hnnp.
   assert (Hnl : nolook argTy = false) by (destruct Hty as [-> | ->]; reflexivity).
-  eapply wp_weaken; [apply (IH curObj s g H I0 H0 Hl Hroom (TM_nolook_false _ _ _ _ Hnl HTM))|auto|].
+  eapply wp_weaken; [apply (IH curObj s g H I0 H0 Hl Hroom (TM_nolook_false _ _ _ _ Hnl HTM) Hnnp)|auto|].
   intros [a res] s' (g' & G1 & G2 & G3 & G4 & G5 & G6 & G7).
   apply (ArgPost_exact curObj argTy s g a res s' g'); auto; try (destruct Hty as [-> | ->]; discriminate).
   intros Hr. destruct (G7 Hr) as (K1 & K2 & K3 & K4). repeat split; auto. lia.
@@ -375,15 +388,15 @@ Definition m_termlist (fuel : nat) (curObj : N) : M (option N * pres) :=
 Lemma arg_termlist fuel curObj s g :
   D_termlist tbls fuel ->
   FD s g -> IV s -> glive g 0 -> glive g curObj -> roomD 1 s ->
-  TM (fun m => m = curObj /\ nolook aml_pArgTypeTermList = true) s g ->
+  TM (fun m => m = curObj /\ nolook aml_pArgTypeTermList = true) s g -> nnp s curObj ->
   wp True (m_termlist fuel curObj) s (ArgPost curObj aml_pArgTypeTermList s g).
 Proof.
-  intros IH H I0 H0 Hl Hroom HTM0. pose proof (fi_R _ _ H) as HR. pose proof (R_gwf _ _ HR) as Hwf.
+  intros IH H I0 H0 Hl Hroom HTM0 Hnnp. pose proof (fi_R _ _ H) as HR. pose proof (R_gwf _ _ HR) as Hwf.
   pose proof (roomD_lp _ _ Hroom) as Hlp. pose proof (fi_rok _ _ H) as Hrok.
   assert (HTM : TM NoX s g) by (apply (TM_nolook_false curObj aml_pArgTypeTermList); [reflexivity|exact HTM0]).
   unfold m_termlist.
   wbi tbls I0. eapply new_step2; [exact H|apply (newokb_sound aml_pOpIntScopeBlock eq_refl)|lia|].
-  intros p t2 g2 po H2 Hext2 Hfresh2 Hlive2 Hroot2 Hkids2 Hpo Hpop _ _ Hl2 Hfw2 Hks2 Hlv2 I2.
+  intros p t2 g2 po H2 Hext2 Hfresh2 Hlive2 Hroot2 Hkids2 Hpo Hpop _ Hpidx Hl2 Hfw2 Hks2 Hlv2 I2.
   set (s2 := with_tree s t2) in *.
   assert (F2 : Fr NoP (eq curObj) NoP s g s2 g2) by (apply (Fr_new NoP (eq curObj) NoP s g s g t2 g2 p (Fr_refl _ _ _ s g) (fun x Hx => Hx) Hfresh2 Hfw2 Hks2)).
   assert (A2 : at_ s s2 0 1) by (eapply at_new'; [apply at_refl; exact Hrok|exact Hl2|reflexivity]).
@@ -418,15 +431,22 @@ Proof.
     { unfold s4, s3, s2. pcbn. rewrite get_tset, N.eqb_refl. assert (Hy : tget t2 p = Some po) by exact Hpo. rewrite Hy. reflexivity. }
     destruct (proj2 Hpf5 _ _ Hp4) as (po5 & Hpo5 & E5 & _). exists po5. split; [exact Hpo5|]. cbn [o_opcode set_amlOffset] in E5. congruence. }
   assert (HTM5 : TM NoX s5 g5).
-  { eapply (TM_frame2 NoX NoX NoP (eq curObj) NoP s g s5 g5 Hwf HR HTM F5); try (intros; contradiction); try apply Eok_NoP.
+  { eapply (TM_frame2 NoX NoX NoP (eq curObj) NoP s g s5 g5 Hwf HR HTM F5); try (intros; contradiction); try apply Eok_NoP; [intros i <-; exact Hnnp|].
     intros m mo Hm Hmop Hnl. exfalso.
     assert (Hl5m : glive g5 m) by (apply (R_live_glive _ _ (fi_R _ _ H5)); exists mo; split; [exact Hm|rewrite Hmop; discriminate]).
     apply glive_append in Hl5m. destruct (Hlv2 m Hl5m) as [F|F]; [contradiction|]. subst m.
     destruct Hp5 as (po5 & Hpo5 & Eop5). assert (po5 = mo) by congruence. subst. rewrite Hmop in Eop5. discriminate. }
   assert (H05 : glive g5 0) by (apply glive_append; apply (ge_live _ _ Hext2); exact H0).
+  assert (Hnnp5 : nnp s5 p).
+  { intros co Hco.
+    assert (Hp4 : tget (p_tree s4) p = Some (set_amlOffset (r_offset (p_r s)) po)).
+    { unfold s4, s3, s2. pcbn. rewrite get_tset, N.eqb_refl. assert (Hy : tget t2 p = Some po) by exact Hpo. rewrite Hy. reflexivity. }
+    destruct (proj2 Hpf5 _ _ Hp4) as (po5 & Hpo5 & _ & E5' & _). change (tget t5 p = Some co) in Hco. assert (po5 = co) by congruence. subst po5.
+    cbn [o_infoIndex set_amlOffset] in E5'. rewrite E5'. intros E. rewrite E in Hpidx. vm_compute in Hpidx. discriminate. }
   wbi tbls I5. eapply wp_weaken; [apply (IH s5 g5 p (p_scopeStack s) H5 I5 H05 Est5)| |].
   { unfold roomD in *. lia. }
   { exact HTM5. }
+  { exact Hnnp5. }
   { auto. }
   intros ok s6 (g6 & H6 & X6 & G3 & G4 & G5) I6.
   assert (Hext6 : gext g g6) by (eapply gext_trans; [exact Hext5|apply (xd_g _ _ _ _ X6)]).
@@ -495,7 +515,7 @@ Proof.
     assert (Hmc : m <> curObj) by (intros E; subst m; contradiction).
     assert (Ht7 : mtyped s7 g6 m).
     { destruct Ht6 as (a0 & a1 & rest & a0o & a1o & v & Q). exists a0, a1, rest, a0o, a1o, v. exact Q. }
-    exact (mtyped_pframe_kids s7 g6 t8 g8 m (R_gwf _ _ (fi_R _ _ H6)) Ht7 Hpf8 (Hkq8 m Hmc)). }
+    exact (mtyped_pframe_kids s7 g6 t8 g8 m curObj (R_gwf _ _ (fi_R _ _ H6)) Ht7 Hpf8 Hkq8 Hmc (nnp_keep NoP s g s6 curObj Hkeep6 HR Hl Hnnp)). }
   split; [intros E; discriminate|]. split; [intros _ E; discriminate|]. split; [intros _ E; discriminate|]. split; [intros _ E; discriminate|intros _ E; discriminate].
 Qed.
 
@@ -507,7 +527,7 @@ Proof. reflexivity. Qed.
 
 Lemma step_Darg fuel : D_strict tbls fuel -> D_termlist tbls fuel -> D_target tbls fuel -> D_arg tbls (S fuel).
 Proof.
-  intros IHs IHt IHg op fl af curObj argTy s g H I0 H0 Hl Hroom Hfl HTM.
+  intros IHs IHt IHg op fl af curObj argTy s g H I0 H0 Hl Hroom Hfl HTM Hnnp.
   assert (K : wp True (parseArg (S fuel) (op, fl, af) curObj argTy) s (ArgPost curObj argTy s g));
     [|eapply wp_weaken; [exact K|auto|intros [a res] s' Hp; exact Hp]].
   cbn [parseArg].
